@@ -302,6 +302,9 @@ def run(ctx):
     t = Taint(ctx)
     c.floor("R7", "strategy roots (generate_logic / generate_runner)", min(t.n_roots), 5)
     t.solve()
+    from .C17 import runner_is_parsed
+    runner_parsed = runner_is_parsed(ctx.p)
+    c.note(f"the runner text is {'parsed' if runner_parsed else 'NOT parsed'} by the verifier before it is written")
     n = 0
     by_kind = {}
     from sa.util import guards_at
@@ -310,7 +313,7 @@ def run(ctx):
         if f.name in DATA_BUILDERS:
             c.ob("R7", True, f, "data-builder", f"accepted: {DATA_BUILDERS[f.name]}", f.node, nontrivial=False)
             continue
-        unverified = f.qualname in t.runner and f.qualname not in t.logic
+        unverified = f.qualname in t.runner and f.qualname not in t.logic and not runner_parsed
         for js in own_nodes(f.node):
             if not isinstance(js, ast.JoinedStr) or is_message(f, js):
                 continue
@@ -343,6 +346,34 @@ def run(ctx):
                     c.ob("R7", True, f, f"interp:{cx}:{k}:{norm(v.value)[:40]}",
                          "escape_for_string() value in a one-line literal of a file that is syntax-verified before writing", v)
                     continue
+                if not ok and cx == "comment" and k in ("RAW", "ESCAPED") and not unverified:
+                    # a value can leave a comment only through a line break; the same value is also interpolated by this function into a
+                    # one-line quoted literal of the same (parsed) file, where a line break is a syntax error: the outcome is a refusal
+                    vnames = {y.id for y in ast.walk(v.value) if isinstance(y, ast.Name)}
+                    quoted = set()
+                    from sa.util import ancestors as _anc, enclosing_loops as _el
+                    my_loops = _el(f, js)
+                    for js2 in own_nodes(f.node):
+                        if isinstance(js2, ast.JoinedStr) and not is_message(f, js2):
+                            l2 = _el(f, js2)
+                            if (my_loops[:1] != l2[:1]) or not my_loops:
+                                continue        # emitted in another loop (another list of names) or outside any
+                            conditional = False
+                            for up in _anc(f, js2):
+                                if up is my_loops[0]:
+                                    break
+                                if isinstance(up, (ast.If, ast.IfExp, ast.Try, ast.While)):
+                                    conditional = True
+                            if conditional:
+                                continue
+                            for i2, v2 in enumerate(js2.values):
+                                if isinstance(v2, ast.FormattedValue) and template_context(js2, i2) in ("sq", "dq"):
+                                    quoted |= {y.id for y in ast.walk(v2.value) if isinstance(y, ast.Name)}
+                    if vnames and vnames <= quoted:
+                        c.ob("R7", True, f, f"interp:{cx}:{k}:{norm(v.value)[:40]}",
+                             "a value in a comment that the same emitter also places in a one-line quoted literal of a file that is parsed before writing: "
+                             "a line break (the only way out of a comment) makes the file unparsable, which is a refusal", v)
+                        continue
                 if ok:
                     if k != "CLEAN":
                         c.ob("R7", True, f, f"interp:{cx}:{k}:{norm(v.value)[:40]}", f"{k} value in {cx} context", v)
